@@ -25,7 +25,7 @@ import zope.testrunner.layer
 from zope.testrunner.filter import build_filtering_func
 
 
-identifier = re.compile(r'[_a-z]\w*$', re.I).match
+identifier = re.compile(r'[_a-z]\w*\Z', re.I).match
 IGNORE_FOLDERS = {
     '.git',
     'node_modules',
